@@ -28,7 +28,8 @@ RULE = ('solved returns (generated programs with generated PDF mappings, limits,
         '(year, filed-form list, character classes) combinations')
 F = simrun.F
 ADVERSARIAL = ['O(Brien', 'Smith)', '(both)', 'a\\b', 'trail\\', '\\(', 'Jo "J" K', "D'Arcy", '))((', 'x (y) z', 'C:\\dir\\f',
-               'a\\nb', '\\051', 'ends(', '#5 Apt (rear)', 'x' * 40, 'A & B <c>', '50~', '{[]}', 'semi;colon', 'eq=sign']
+               'a\\nb', '\\051', 'ends(', '#5 Apt (rear)', 'x' * 40, 'A & B <c>', '50~', '{[]}', 'semi;colon', 'eq=sign',
+               'x' * 199 + '\\' + 'y' * 60, 'ab(' * 90, '\\' * 260, 'q' * 198 + '()' + 'r' * 210, ('long (text) \\ ' * 30).strip()]
 
 
 def char_classes(texts):
@@ -45,13 +46,16 @@ def char_classes(texts):
     return sorted(s)
 
 
-def solve_cli(case, kind):
+def solve_cli(case, kind, keep_old_solution=False):
+    """keep_old_solution: write the solution over whatever the previous solve left at the same path (re-solving into
+    the same file is what users do)"""
+    cli = {'prompt': True, 'writeback': False, 'solution': True, 'keep_old_solution': keep_old_solution}
     if kind == 'synth':
-        return simrun.execute_cli(case, {'prompt': True, 'writeback': False, 'solution': True})
+        return simrun.execute_cli(case, cli)
     world = c20.shipped_world(case)
     path = os.path.join(simrun.scratch_dir(), 'c19_in.ini')
     crash.write_text(path, c20.initial_text(case, 'shipped'))
-    return crash.session(world, path, {'prompt': True, 'writeback': False, 'solution': True})
+    return crash.session(world, path, cli)
 
 
 def year_forms_for(case, kind):
@@ -62,9 +66,9 @@ def year_forms_for(case, kind):
     return y, None, {c.form_name: c for c in shipped.hb_forms.available_forms[y]}
 
 
-def evaluate(case, engine, acc=None, want='C19'):
+def evaluate(case, engine, acc=None, want='C19', keep_old_solution=False):
     kind = 'synth' if engine.startswith('synth') else 'shipped'
-    run = solve_cli(case, kind)
+    run = solve_cli(case, kind, keep_old_solution)
     fs = []
     year, year_forms, by_name = year_forms_for(case, kind)
     info = {}
